@@ -25,5 +25,6 @@ func TestVerifC03Fetch(t *testing.T) {
 	r.Floor("reads_handler_fetch", 2000)
 	r.Floor("reads_partitionlog_read", 2000)
 	r.Floor("cases_sparse_index", 20)
+	r.Floor("reads_partitionlog_read_in_gap", 50)
 	r.Floor("nonempty_fetch_replies_while_upload_pending", 20)
 }
